@@ -137,19 +137,28 @@ def templates():
     return [(t, b, v, True) for t, (b, v) in bare] + [(t, b, v, False) for t, (b, v) in inert]
 
 
+# bare templates whose argument *expression* is a field name: there the name is a reference to the field, so under
+# `{:p}` the thing formatted directly is `&field` (its address), not the field (documented in impl/doc/display.md)
+REF_ARG_MEMBER = {'"{0<Y>}", _0': "0", '"{<Y>}", _0': "0", '"{a<Y>}", a = _0': "0", '"{<Y>}", a = _0': "0", '"{<Y>}", f': "f"}
+
+
 def behaviour(res, rng, tier):
     """Real proc-macro, grid of outer specs, expected text computed from the property's wording:
     bare -> the outer spec applied to the argument under the placeholder's trait;
     otherwise -> the flag-free text."""
-    specs = outer_specs(rng, 24 if tier == "quick" else 120)
+    specs = outer_specs(rng, 24 if tier == "quick" else 60)
     combos = [(X, t, body, val, bare, Y) for X in TRAITS for (t, body, val, bare) in templates() for Y in TRAITS]
-    pick = rng.sample(combos, 170 if tier == "quick" else 1500)
+    pick = rng.sample(combos, 170 if tier == "quick" else 600)
     macros = ""
     for X in TRAITS:
         xch = TYCH[X]
         macros += (f"macro_rules! grid_{X} {{ ($id:expr, $v:expr, $w:expr, $y:tt) => {{ " +
                    " ".join(f'check($id, "{s}", format!(concat!("{{:", "{s}", "{xch}", "}}"), $v), '
                             f'if $w {{ format!(concat!("{{:", "{s}", $y, "}}"), Probe(7)) }} else {{ format!(concat!("{{:", "{xch}", "}}"), $v) }});'
+                            for s in specs)
+                   + " } }\n")
+        macros += (f"macro_rules! gridref_{X} {{ ($id:expr, $v:expr, $m:tt) => {{ let v = $v; " +
+                   " ".join(f'check($id, "{s}", format!(concat!("{{:", "{s}", "{xch}", "}}"), v), format!(concat!("{{:", "{s}", "p}}"), &v.$m));'
                             for s in specs)
                    + " } }\n")
     cf = C.CaseFile(PROBE + macros)
@@ -166,6 +175,11 @@ def behaviour(res, rng, tier):
         attr = t.replace("<Y>", (":" + ych) if ych else "").replace("<y>", ych)
         an = G.ATTR_NAME[X]
         semi = "" if body.startswith("{") else ";"
+        if bare and Y == "Pointer" and t in REF_ARG_MEMBER:
+            cf.add(n, f'#[derive(derive_more::{X})] #[{an}({attr})] pub struct T{body}{semi}\n'
+                      f'pub fn run() {{ gridref_{X}!("{n}", {val}, {REF_ARG_MEMBER[t]}); }}', main_call=f"c{n}::run();")
+            meta[str(n)] = f"#[derive({X})] #[{an}({attr})] struct T{body}  expected=pass-through under Pointer of the reference the argument expression is"
+            continue
         cf.add(n, f'#[derive(derive_more::{X})] #[{an}({attr})] pub struct T{body}{semi}\n'
                   f'pub fn run() {{ grid_{X}!("{n}", {val}, {"true" if bare else "false"}, "{ych if bare else ""}"); }}',
                main_call=f"c{n}::run();")
